@@ -326,7 +326,20 @@ def _dump_cid(cid):
     return binascii.hexlify(cid).decode("ascii")
 
 
+def _deterministic_hashes():
+    """sets of stream objects are iterated by the code under test; identity hashes would make
+    that order depend on memory addresses and the re-execution non-deterministic"""
+    import aioquic.quic.stream as st
+
+    if getattr(st.QuicStream, "_verif_hash", False):
+        return
+    st.QuicStream.__hash__ = lambda self: hash(("stream", self.stream_id if isinstance(self.stream_id, int) or self.stream_id is None else 0))
+    st.QuicStream.__eq__ = lambda self, other: self is other
+    st.QuicStream._verif_hash = True
+
+
 def conn_shims(extra=()):
+    _deterministic_hashes()
     import aioquic.quic.connection as qc
     import aioquic.quic.packet as pk
     import aioquic.quic.packet_builder as pb
